@@ -33,7 +33,9 @@ EXPLANATION = (
     ' '
     'R-C03.14 a mutation never stores one of its own containers (**field_attrs, ...) by reference into a signature (plain attribute store or a constructor that keeps the reference; property setters that copy are recognised); R-C03.15 no write to a local container after it was handed to a signature constructor that keeps `param or <fresh>`.'
     ' '
-    'R-C03.7 also fires when BaseMutation.__hash__ is not identity-based while __eq__ is structural (every membership test is then an equality test).')
+    'R-C03.7 also fires when BaseMutation.__hash__ is not identity-based while __eq__ is structural (every membership test is then an equality test).'
+    ' '
+    'R-C03.17 = R-C01.18.')
 NOT_DECIDED = (
     'Equivalence of the optimised run and the one-at-a-time run (signature, '
     'schema, rows) for all sequences: needs execution of both.')
@@ -1163,7 +1165,13 @@ def r16_every_mutator_replays_its_simulation(ctx, rule_id='R-C03.16'):
                         'its changes' % k, key='not-replayed:%s' % k)
 
 
+def r17_index_names_from_columns(ctx):
+    from .c01 import r18_index_names_from_columns
+    r18_index_names_from_columns(ctx, rule_id='R-C03.17')
+
+
 def run(ctx):
+    r17_index_names_from_columns(ctx)
     r16_every_mutator_replays_its_simulation(ctx)
     r15_no_write_after_conditional_handover(ctx)
     r14_mutation_state_not_aliased(ctx)
